@@ -7,7 +7,7 @@
 From Coq Require Import Permutation.
 From Ink.Data Require Import Types InkList IntSem Value Native NativeTie InkListProofs.
 From Ink.Gen Require Import NativeGen CmdGen.
-From Ink.Spec Require Import KeyOrder ListSpec ExprSpec.
+From Ink.Spec Require Import KeyOrder ListSpec ListSpecProofs ExprSpec ExprSpecProofs.
 Local Open Scope Z_scope.
 
 (* T-gen ties: the operator name table read from native_function_call.rs is invertible *)
@@ -41,21 +41,70 @@ Check native_list_binary_refines_spec : forall oo ovf fo defs op a b,
   Some (spec_list_binary op (abs a) (abs b)).
 Print Assumptions native_list_binary_refines_spec.
 
-(* (3) LIST_COUNT, LIST_VALUE, `not`, LIST_ALL, LIST_INVERT ([ds] = the declarations
-   of the list's origins).  LIST_MIN / LIST_MAX as lists, list +- int, LIST_RANGE and
-   list-from-int are covered by the correspondence runs only (partial). *)
-Theorem native_list_unary_refines_spec_partial : forall oo sem ovf fo defs op a ds,
+(* (3) every unary list operator: LIST_COUNT, LIST_VALUE, `not`, LIST_ALL, LIST_INVERT
+   ([ds] = the declarations of the list's origins), LIST_MIN / LIST_MAX as one-item lists
+   (ties resolved by the total order value / origin name / item name). *)
+Theorem native_list_unary_refines_spec : forall oo sem ovf fo defs op a ds,
   ord_ok oo -> wf_list a -> origin_defs defs a = Ok ds -> Forall wf_def ds ->
   list_unary_covered op = true ->
   abs_res (call_native_g oo sem ovf fo defs op [OVal (VList a)]) =
   Some (spec_list_unary ds op (abs a)).
 Proof. exact native_list_unary_refines_lemma. Qed.
-Check native_list_unary_refines_spec_partial : forall oo sem ovf fo defs op a ds,
+Check native_list_unary_refines_spec : forall oo sem ovf fo defs op a ds,
   ord_ok oo -> wf_list a -> origin_defs defs a = Ok ds -> Forall wf_def ds ->
   list_unary_covered op = true ->
   abs_res (call_native_g oo sem ovf fo defs op [OVal (VList a)]) =
   Some (spec_list_unary ds op (abs a)).
-Print Assumptions native_list_unary_refines_spec_partial.
+Print Assumptions native_list_unary_refines_spec.
+
+(* (3a) LIST_MIN / LIST_MAX on the list model itself *)
+Theorem list_min_max_refine_spec : forall oo l, ord_ok oo -> wf_list l ->
+  abs (list_min_as_list oo l) = s_min_list (abs l) /\ abs (list_max_as_list oo l) = s_max_list (abs l).
+Proof. exact min_max_as_list_refine. Qed.
+Check list_min_max_refine_spec : forall oo l, ord_ok oo -> wf_list l ->
+  abs (list_min_as_list oo l) = s_min_list (abs l) /\ abs (list_max_as_list oo l) = s_max_list (abs l).
+Print Assumptions list_min_max_refine_spec.
+
+(* (3b) list + int / list - int: every item replaced by the item of the same declaration
+   whose value is shifted (32-bit wrapping); items without such a neighbour dropped *)
+Theorem native_list_increment_refines_spec : forall oo ovf fo defs op a n ds,
+  ord_ok oo -> wf_list a -> has_origins a -> origin_defs defs a = Ok ds -> Forall wf_def ds ->
+  is_increment op = true ->
+  abs_res (call_native_g oo int_sem_now ovf fo defs op [OVal (VList a); OVal (VInt n)]) =
+  Some (spec_list_increment ds op (abs a) n).
+Proof. exact native_list_increment_refines_lemma. Qed.
+Check native_list_increment_refines_spec : forall oo ovf fo defs op a n ds,
+  ord_ok oo -> wf_list a -> has_origins a -> origin_defs defs a = Ok ds -> Forall wf_def ds ->
+  is_increment op = true ->
+  abs_res (call_native_g oo int_sem_now ovf fo defs op [OVal (VList a); OVal (VInt n)]) =
+  Some (spec_list_increment ds op (abs a) n).
+Print Assumptions native_list_increment_refines_spec.
+
+(* (3c) LIST_RANGE(list, lo, hi), bounds ints or lists: a list bound counts as its MINIMUM
+   value when it is the lower bound and as its MAXIMUM value when it is the upper bound;
+   an empty bound list leaves that side open *)
+Theorem list_range_refines_spec : forall oo l vlo vhi lo hi,
+  ord_ok oo -> wf_list l -> wf_bound vlo -> wf_bound vhi ->
+  abs_bound vlo = Some lo -> abs_bound vhi = Some hi ->
+  abs_vres (list_range_cmd oo (OVal vhi) (OVal vlo) (OVal (VList l))) = Some (spec_list_range (abs l) lo hi).
+Proof. exact list_range_cmd_refines_lemma. Qed.
+Check list_range_refines_spec : forall oo l vlo vhi lo hi,
+  ord_ok oo -> wf_list l -> wf_bound vlo -> wf_bound vhi ->
+  abs_bound vlo = Some lo -> abs_bound vhi = Some hi ->
+  abs_vres (list_range_cmd oo (OVal vhi) (OVal vlo) (OVal (VList l))) = Some (spec_list_range (abs l) lo hi).
+Print Assumptions list_range_refines_spec.
+
+(* (3d) ListName(n): the item of LIST ListName with value n (smallest name when the
+   declaration repeats the value), the empty list when there is none, an error when there
+   is no such LIST *)
+Theorem list_from_int_refines_spec : forall oo defs name n, ord_ok oo -> NoDup (map fst defs) ->
+  abs_vres (list_from_int_cmd oo defs (OVal (VInt n)) (OVal (VString name))) =
+  Some (spec_list_from_int defs name n).
+Proof. exact list_from_int_cmd_refines_lemma. Qed.
+Check list_from_int_refines_spec : forall oo defs name n, ord_ok oo -> NoDup (map fst defs) ->
+  abs_vres (list_from_int_cmd oo defs (OVal (VInt n)) (OVal (VString name))) =
+  Some (spec_list_from_int defs name n).
+Print Assumptions list_from_int_refines_spec.
 
 (* (4) "independent of the order items were added" *)
 Theorem list_ops_insertion_order_free : forall l l',
